@@ -33,8 +33,10 @@ package referenceclient
 // HTTP field values: every byte is HTAB or visible (32 and up) other than DEL; field names:
 // every byte is an RFC 7230 token character. Exactly (both directions), for every string.
 //@ spec fieldValueByte(c int) bool = c == 9 || (c >= 32 && c != 127)
+//@ macro
 //@ spec tokenByte(c int) bool = c == 33 || c == 35 || c == 36 || c == 37 || c == 38 || c == 39 || c == 42 || c == 43 || c == 45 || c == 46 ||
 //@      c == 94 || c == 95 || c == 96 || c == 124 || c == 126 || (c >= 48 && c <= 57) || (c >= 97 && c <= 122) || (c >= 65 && c <= 90)
+//@ macro
 //@ func isValidHTTPFieldValue
 //@   pure
 //@   ensures result == (forall k int :: 0 <= k && k < len(s) ==> fieldValueByte(s[k]))
@@ -43,3 +45,142 @@ package referenceclient
 //@   pure
 //@   ensures result == (forall k int :: 0 <= k && k < len(s) ==> tokenByte(s[k]))
 //@   loop 0: invariant 0 <= i && i < len(s) && forall k int :: 0 <= k && k < i ==> tokenByte(s[k])
+
+// gRPC status trailers (also used for gRPC-Web end-of-stream blocks and trailers-only
+// responses). prN[printer] counts the feedback lines. hvN/hv0: number of values and first
+// value of a (canonical) key.
+//@ spec hvN(h http.Header, k string) int = has(h, canonKey(k)) ? len(h[canonKey(k)]) : 0
+//@ spec hv0(h http.Header, k string) string = h[canonKey(k)][0]
+// grpc-status: exactly one value, a decimal number in 0..16
+//@ spec grpcStatusOK(h http.Header) bool = hvN(h, "Grpc-Status") == 1 && atoiOK(hv0(h, "Grpc-Status")) && 0 <= atoiVal(hv0(h, "Grpc-Status")) && atoiVal(hv0(h, "Grpc-Status")) <= 16
+// grpc-message: at most one value; every byte that must be escaped is escaped, every '%' is
+// followed by two hex digits (scanSt ends in "nothing owed"); empty when the status is 0
+//@ spec grpcMessageOK(h http.Header) bool = hvN(h, "Grpc-Message") <= 1 && (hvN(h, "Grpc-Message") == 1 ==>
+//@      scanOK(hv0(h, "Grpc-Message")) && !(atoiVal(hv0(h, "Grpc-Status")) == 0 && hv0(h, "Grpc-Message") != ""))
+// grpc-status-details-bin: at most one value; unpadded base64 of a parseable google.rpc.Status
+// whose code equals grpc-status, whose message equals the decoded grpc-message (when that
+// is present and decodes), and which has no details when the code is 0
+//@ spec grpcDetailsOK(h http.Header) bool = hvN(h, "Grpc-Status-Details-Bin") <= 1 && (hvN(h, "Grpc-Status-Details-Bin") == 1 ==>
+//@      b64DecOK(base64.RawStdEncoding, hv0(h, "Grpc-Status-Details-Bin")) && pbStatusOK(b64DecVal(base64.RawStdEncoding, hv0(h, "Grpc-Status-Details-Bin"))) &&
+//@      pbStatusCode(b64DecVal(base64.RawStdEncoding, hv0(h, "Grpc-Status-Details-Bin"))) == atoiVal(hv0(h, "Grpc-Status")) &&
+//@      !(pbStatusCode(b64DecVal(base64.RawStdEncoding, hv0(h, "Grpc-Status-Details-Bin"))) == 0 && pbStatusDetN(b64DecVal(base64.RawStdEncoding, hv0(h, "Grpc-Status-Details-Bin"))) > 0) &&
+//@      (hvN(h, "Grpc-Message") >= 1 && unescOK(hv0(h, "Grpc-Message")) ==> pbStatusMsg(b64DecVal(base64.RawStdEncoding, hv0(h, "Grpc-Status-Details-Bin"))) == unescVal(hv0(h, "Grpc-Message"))))
+// No feedback exactly for well-formed status trailers; never a panic.
+//@ func checkGRPCStatus
+//@   requires printer != nil
+//@   modifies prN, lastUnmarshalFmt, status.Status.Code, status.Status.Message, status.Status.Details
+//@   ensures prN[printer] >= old(prN[printer])
+//@   ensures @flags prN[printer] == old(prN[printer]) ==> grpcStatusOK(headers) && grpcMessageOK(headers) && grpcDetailsOK(headers)
+//@   ensures @accepts grpcStatusOK(headers) && grpcMessageOK(headers) && grpcDetailsOK(headers) ==> prN[printer] == old(prN[printer])
+//@   loop 0: invariant 0 <= i && i < len(msgStr) && expectHex >= 0 && prN[printer] == atentry(prN[printer])
+//@           invariant @scan expectHex == scanSt(msgStr, i) && (forall k int :: 0 <= k && k <= i ==> scanSt(msgStr, k) >= 0)
+//@   //# cut points: what is known after the grpc-status part and after the grpc-message part
+//@   assert_at "msgVals := headers.Values(": prN[printer] == old(prN[printer]) + (grpcStatusOK(headers) ? 0 : 1)
+//@   assert_at "msgVals := headers.Values(": (statusCode != nil) == (hvN(headers, "Grpc-Status") == 1 && atoiOK(hv0(headers, "Grpc-Status"))) && (statusCode != nil ==> *statusCode == atoiVal(hv0(headers, "Grpc-Status")))
+//@   assert_at "if expectHex > 0 {"#2: (forall k int :: 0 <= k && k <= len(msgStr) ==> scanSt(msgStr, k) >= 0) ==> expectHex == scanSt(msgStr, len(msgStr)) && prN[printer] == old(prN[printer]) + (grpcStatusOK(headers) ? 0 : 1) + (hvN(headers, "Grpc-Message") > 1 ? 1 : 0)
+//@   assert_at "if expectHex > 0 {"#2: !(forall k int :: 0 <= k && k <= len(msgStr) ==> scanSt(msgStr, k) >= 0) ==> expectHex == 0 && prN[printer] == old(prN[printer]) + (grpcStatusOK(headers) ? 0 : 1) + (hvN(headers, "Grpc-Message") > 1 ? 1 : 0) + 1
+//@   assert_at "detailsBinVals := headers.Values(": (prN[printer] == old(prN[printer])) == (grpcStatusOK(headers) && grpcMessageOK(headers))
+//@   assert_at "detailsBinVals := headers.Values(": (msg != nil) == (hvN(headers, "Grpc-Message") >= 1 && unescOK(hv0(headers, "Grpc-Message"))) && (msg != nil ==> *msg == unescVal(hv0(headers, "Grpc-Message")))
+//@   assert_at "detailsBinVals := headers.Values(": (statusCode != nil) == (hvN(headers, "Grpc-Status") == 1 && atoiOK(hv0(headers, "Grpc-Status"))) && (statusCode != nil ==> *statusCode == atoiVal(hv0(headers, "Grpc-Status")))
+//@   assert_at "should be hexadecimal digit": scanSt(msgStr, i + 1) < 0
+//@   assert_at "should be percent-encoded": scanSt(msgStr, i + 1) < 0
+
+// Binary metadata: no feedback exactly when every value of every "-bin" entry (other than
+// grpc-status-details-bin, examined with the status) is valid unpadded base64.
+//@ spec binName(n string) bool = hasSuffix(strLower(n), "-bin") && strLower(n) != "grpc-status-details-bin"
+//@ spec binEntryOK(e *conformancev1.Header, n int) bool = forall j int :: 0 <= j && j < n ==> b64DecOK(base64.RawStdEncoding, e.Value[j])
+//@ func checkBinaryMetadata
+//@   requires printer != nil && (forall i int :: 0 <= i && i < len(metadata) ==> metadata[i] != nil)
+//@   modifies prN
+//@   ensures prN[printer] >= old(prN[printer])
+//@   ensures @iff (prN[printer] == old(prN[printer])) == (forall i int :: 0 <= i && i < len(metadata) && binName(metadata[i].Name) ==> binEntryOK(metadata[i], len(metadata[i].Value)))
+//@   loop 0: invariant prN[printer] >= old(prN[printer])
+//@           invariant (prN[printer] == old(prN[printer])) == (forall i int :: 0 <= i && i <= rangeindex && binName(metadata[i].Name) ==> binEntryOK(metadata[i], len(metadata[i].Value)))
+//@   loop 1: invariant prN[printer] >= old(prN[printer]) && entry == metadata[rangeindex0 + 1] && binName(entry.Name)
+//@           invariant (prN[printer] == old(prN[printer])) == ((forall i int :: 0 <= i && i <= rangeindex0 && binName(metadata[i].Name) ==> binEntryOK(metadata[i], len(metadata[i].Value))) && binEntryOK(entry, rangeindex + 1))
+
+// ---- which part of the trace is examined ----
+//@ func isUnaryJSONError
+//@   pure
+//@   ensures result == (contentType == "application/json" && statusCode != 200)
+
+// the content of the first end-stream event of the trace, if there is one
+//@ spec isEndStreamEv(ev tracer.Event) bool = typeis(ev, *tracer.ResponseBodyEndStream)
+//@ func getBodyEndStream
+//@   requires trace != nil && (forall k int :: 0 <= k && k < len(trace.Events) && isEndStreamEv(trace.Events[k]) ==> unbox(trace.Events[k], *tracer.ResponseBodyEndStream) != nil)
+//@   modifies nothing
+//@   ensures @none !result_1 ==> result_0 == "" && (forall k int :: 0 <= k && k < len(trace.Events) ==> !isEndStreamEv(trace.Events[k]))
+//@   ensures @first result_1 ==> (exists k int :: 0 <= k && k < len(trace.Events) && isEndStreamEv(trace.Events[k]) && result_0 == unbox(trace.Events[k], *tracer.ResponseBodyEndStream).Content &&
+//@        (forall j int :: 0 <= j && j < k ==> !isEndStreamEv(trace.Events[j])))
+//@   loop 0: invariant forall k int :: 0 <= k && k <= rangeindex ==> !isEndStreamEv(trace.Events[k])
+
+// trailers-only: a response without error, without any non-empty trailer, without body data
+//@ func isTrailersOnlyResponse
+//@   requires trace != nil
+//@   modifies nothing
+//@   ensures result ==> trace.Response != nil && trace.Err == nil && (forall k int :: 0 <= k && k < len(trace.Events) ==> !typeis(trace.Events[k], *tracer.ResponseBodyData))
+//@   ensures trace.Response != nil && trace.Err == nil && len(trace.Response.Trailer) == 0 && (forall k int :: 0 <= k && k < len(trace.Events) ==> !typeis(trace.Events[k], *tracer.ResponseBodyData)) ==> result
+//@   loop 1: invariant forall k int :: 0 <= k && k <= rangeindex ==> !typeis(trace.Events[k], *tracer.ResponseBodyData)
+
+// gRPC-Web end-of-stream block. Lines are the pieces between LF; a line is fine when, without
+// its CR, it is "name:value" with a lower-case token as name and a valid field value (after
+// trimming blanks). The block is fine when every line but the last ends in CR and is fine,
+// and the last piece is empty (the block ends in CRLF). No feedback exactly then; never a panic.
+//@ spec allToken(s string) bool = forall k int :: 0 <= k && k < len(s) ==> tokenByte(s[k])
+//@ macro
+//@ spec allValue(s string) bool = forall k int :: 0 <= k && k < len(s) ==> fieldValueByte(s[k])
+//@ macro
+//@ spec trailerLineOK(l string) bool = l != "" && strContains(l, ":") && allToken(cutHead(l, ":")) && cutHead(l, ":") == strLower(cutHead(l, ":")) && allValue(strTrim(cutTail(l, ":"), " \t"))
+//@ macro
+//@ spec crLineOK(l string) bool = hasSuffix(l, "\r") && trailerLineOK(l[:len(l) - 1])
+//@ macro
+//@ func examineGRPCEndStream
+//@   requires printer != nil
+//@   modifies prN
+//@   ensures result != nil && prN[printer] >= old(prN[printer])
+//@   ensures @iff (prN[printer] == old(prN[printer])) == (splitView(endStream, "\n")[len(splitView(endStream, "\n")) - 1] == "" &&
+//@        (forall i int :: 0 <= i && i < len(splitView(endStream, "\n")) - 1 ==> crLineOK(splitView(endStream, "\n")[i])))
+//@   loop 0: invariant trailers != nil && fresh(trailers) && allocated(trailers) && fresh(endStreamLines) && allocated(endStreamLines) && view(endStreamLines) == splitView(endStream, "\n") && len(endStreamLines) >= 1
+//@           invariant linesWithoutCR >= 0 && blankLines >= 0 && obsLineFolds >= 0 && linesWithoutCR <= rangeindex + 1 && blankLines <= rangeindex + 1 && obsLineFolds <= rangeindex + 1
+//@           invariant prN[printer] >= old(prN[printer]) && (rangeindex < len(endStreamLines) - 1 ==> !endsInCRLF)
+//@           invariant forall k string :: has(trailers, k) ==> slicebase(trailers[k]) != slicebase(endStreamLines) && (slicebase(trailers[k]) == 0 || fresh(trailers[k]))
+//@           invariant @sofarA (prN[printer] == old(prN[printer]) && linesWithoutCR == 0 && blankLines == 0 && obsLineFolds == 0 && (rangeindex >= len(endStreamLines) - 1 ==> endsInCRLF)) ==>
+//@                ((forall i int :: 0 <= i && i <= rangeindex && i < len(endStreamLines) - 1 ==> crLineOK(endStreamLines[i])) && (rangeindex >= len(endStreamLines) - 1 ==> endStreamLines[len(endStreamLines) - 1] == ""))
+//@           invariant @sofarB ((forall i int :: 0 <= i && i <= rangeindex && i < len(endStreamLines) - 1 ==> crLineOK(endStreamLines[i])) && (rangeindex >= len(endStreamLines) - 1 ==> endStreamLines[len(endStreamLines) - 1] == "")) ==>
+//@                (prN[printer] == old(prN[printer]) && linesWithoutCR == 0 && blankLines == 0 && obsLineFolds == 0 && (rangeindex >= len(endStreamLines) - 1 ==> endsInCRLF))
+
+// The JSON examiners rest on encoding/json and are not modelled: only their effect on the
+// feedback count is assumed (they print to the given printer and nothing else).
+//@ func examineConnectError
+//@   trusted
+//@   modifies prN
+//@   ensures prN[printer] >= old(prN[printer])
+//@ func examineConnectEndStream
+//@   trusted
+//@   modifies prN
+//@   ensures prN[printer] >= old(prN[printer])
+
+// Which examiner sees what: without a capture wrapper or a completed trace there is one line
+// of feedback and no status; without a response no status and no feedback; otherwise the
+// HTTP status of the traced response is returned, and HTTP trailers on anything but the gRPC
+// protocol are flagged. Never a panic.
+//@ spec respContentType(r *http.Response) string = (has(r.Header, canonKey("Content-Type")) && len(r.Header[canonKey("Content-Type")]) > 0) ? r.Header[canonKey("Content-Type")][0] : ""
+//@ func examineWireDetails
+//@   requires ctx != nil && printer != nil && (hasWrapper(ctx) ==> wrapperOf(ctx) != nil)
+//@   modifies prN, lastUnmarshalFmt, status.Status.Code, status.Status.Message, status.Status.Details, rdPos, ghosts:*Src
+//@   //# the printer is the caller's own (a fresh SimplePrinter per call): nobody else prints to it while this waits for the trace
+//@   unshared prN
+//@   ensures prN[printer] >= old(prN[printer])
+//@   ensures @nowrapper !hasWrapper(ctx) ==> !ok && statusCode == 0 && prN[printer] == old(prN[printer]) + 1
+//@   ensures @status ok ==> hasWrapper(ctx) && fieldaddr(wrapperOf(ctx), trace).Response != nil && statusCode == fieldaddr(wrapperOf(ctx), trace).Response.StatusCode
+//@   ensures @stray-trailers ok && respContentType(fieldaddr(wrapperOf(ctx), trace).Response) != "application/grpc" && !hasPrefix(respContentType(fieldaddr(wrapperOf(ctx), trace).Response), "application/grpc+") &&
+//@        len(fieldaddr(wrapperOf(ctx), trace).Response.Trailer) > 0 ==> prN[printer] > old(prN[printer])
+//@   assume_at "if trace.Response == nil {": forall k int :: 0 <= k && k < len(wrapper.trace.Events) && isEndStreamEv(wrapper.trace.Events[k]) ==> unbox(wrapper.trace.Events[k], *tracer.ResponseBodyEndStream) != nil
+//@   //# (events are appended by the tracer as pointers to fresh event values)
+
+// Comparing an error detail's "debug" JSON with its value: whatever the bytes are, no panic
+// (in particular the type-URL suffix is cut at a valid position).
+//@ func examineConnectErrorDetailDebugData
+//@   requires printer != nil
+//@   modifies prN, lastUnmarshalFmt, status.Status.Code, status.Status.Message, status.Status.Details, pbDecodedFrom, lastDecoded
+//@   ensures prN[printer] >= old(prN[printer])
